@@ -10,6 +10,8 @@ pub mod c03;
 pub mod c04;
 pub mod c05;
 pub mod c06;
+pub mod c08;
+pub mod c09;
 pub mod c17;
 pub mod c18;
 pub mod common;
@@ -22,6 +24,8 @@ pub fn run(cfg: &Cfg) -> i32 {
         "C04" => c04::run(cfg),
         "C05" => c05::run(cfg),
         "C06" => c06::run(cfg),
+        "C08" => c08::run(cfg),
+        "C09" => c09::run(cfg),
         "C17" => c17::run(cfg),
         "C18" => c18::run(cfg),
         other => {
@@ -39,6 +43,8 @@ pub fn replay_case(prop: &str, ctx: &mut Ctx, case: &Value) -> Result<(), Violat
         "C04" => c04::replay(ctx, case),
         "C05" => c05::replay(ctx, case),
         "C06" => c06::replay(ctx, case),
+        "C08" => c08::replay(ctx, case),
+        "C09" => c09::replay(ctx, case),
         "C17" => c17::replay(ctx, case),
         "C18" => c18::replay(ctx, case),
         _ => Err(ctx.violation("INFRA", format!("unknown property {}", prop), Value::Null)),
